@@ -663,8 +663,102 @@ fn deep_doubling_project(seed: u64, rng: &mut Rng) -> Project {
     }
 }
 
+/// LONG linear declarations, as generated code has them (opcode / error-code tables, column lists): an enum of
+/// thousands of members (with initialisers, without - a diagnostic today -, or numbered from one explicit start), the
+/// late members of it used one by one (`Op.C19999`, `typeof` of a constant initialised with one), a union of
+/// thousands of literals, an object of thousands of properties, a long tuple. Whatever walks such a declaration
+/// member by member must not do it by recursion (seeded change c04p-1: the value of an enum member computed as
+/// "the member before, plus one" without a bound).
+fn long_project(seed: u64, rng: &mut Rng) -> Project {
+    let n = rng.range(3000, 40000);
+    let style = rng.below(4); // 0: every member initialised, 1: none, 2: first one only, 3: every 1000th
+    let mut codes = String::from("// generated table\nexport enum Op {\n");
+    for i in 0..n {
+        let init = match style {
+            0 => true,
+            1 => false,
+            2 => i == 0,
+            _ => i % 1000 == 0,
+        };
+        if init {
+            codes.push_str(&format!("  C{} = {},\n", i, i + if style == 2 { 100 } else { 0 }));
+        } else {
+            codes.push_str(&format!("  C{},\n", i));
+        }
+    }
+    codes.push_str("}\n");
+    let late = [n - 1, n - 2, n / 2, rng.range(0, n - 1), 0];
+    codes.push_str(&format!("export const LAST_OP = Op.C{};\nexport const SOME_OPS = {{ a: Op.C{}, b: Op.C{} }} as const;\n", late[0], late[1], late[2]));
+    let mut entry = String::from("import parse from \"./gen/parser\";\nimport { Op, LAST_OP, SOME_OPS } from \"./codes\";\n");
+    let mut keys = vec![];
+    for (k, i) in late.iter().enumerate() {
+        if rng.chance(2, 3) {
+            entry.push_str(&format!("export type Late{} = Op.C{};\n", k, i));
+            keys.push(format!("Late{}: Late{}", k, k));
+        }
+    }
+    if rng.chance(1, 2) {
+        entry.push_str("export type LastOp = typeof LAST_OP;\nexport type SomeOps = typeof SOME_OPS;\n");
+        keys.push("LastOp: LastOp".into());
+        keys.push("SomeOps: SomeOps".into());
+    }
+    if rng.chance(1, 3) {
+        entry.push_str("export type AnyOp = Op;\nexport type Tagged = { op: Op; note?: string };\n");
+        keys.push("AnyOp: AnyOp".into());
+        keys.push("Tagged: Tagged".into());
+    }
+    if rng.chance(1, 2) {
+        // (the semantic operators are quadratic in the number of literals: a second for 4 000; kept below 0.1 s)
+        let m = rng.range(300, 1200);
+        let lits: Vec<String> = (0..m).map(|i| format!("\"k{}\"", i)).collect();
+        entry.push_str(&format!("export type BigUnion = {};\nexport type NotFirst = Exclude<BigUnion, \"k0\">;\n", lits.join(" | ")));
+        keys.push("BigUnion: BigUnion".into());
+        if rng.chance(1, 2) {
+            keys.push("NotFirst: NotFirst".into());
+        }
+    }
+    if rng.chance(1, 2) {
+        let m = rng.range(300, 1200);
+        let props: Vec<String> = (0..m).map(|i| format!("p{}{}: {}", i, if i % 7 == 0 { "?" } else { "" }, if i % 3 == 0 { "string" } else { "number" })).collect();
+        entry.push_str(&format!("export type BigRow = {{ {} }};\nexport type RowKeys = keyof BigRow;\n", props.join("; ")));
+        keys.push("BigRow: BigRow".into());
+        if rng.chance(1, 3) {
+            keys.push("RowKeys: RowKeys".into());
+        }
+    }
+    if rng.chance(1, 3) {
+        let m = rng.range(300, 3000);
+        let els: Vec<&str> = (0..m).map(|i| if i % 2 == 0 { "number" } else { "string" }).collect();
+        entry.push_str(&format!("export type LongTuple = [{}];\n", els.join(", ")));
+        keys.push("LongTuple: LongTuple".into());
+    }
+    if keys.is_empty() {
+        entry.push_str("export type AnyOp = Op;\n");
+        keys.push("AnyOp: AnyOp".into());
+    }
+    entry.push_str(&format!("parse.buildParsers<{{ {} }}>();\n", keys.join("; ")));
+    let mut files: BTreeMap<String, String> = BTreeMap::new();
+    files.insert("/p/entry.ts".into(), entry);
+    files.insert("/p/codes.ts".into(), codes);
+    Project {
+        id: format!("long_{:08x}", (seed & 0xffff_ffff) as u32),
+        origin: "verif/sim/src/gen.rs long_project".into(),
+        origin_kind: "synthetic".into(),
+        entry: "/p/entry.ts".into(),
+        settings: Settings { string_formats: vec![], number_formats: vec![] },
+        module: "esm".into(),
+        files,
+    }
+}
+
 pub fn synthetic_project(seed: u64) -> Project {
     let mut rng = Rng::new(seed ^ 0x5EED_0F_7E57);
+    // one synthetic project in sixty-four has LONG declarations (decided by the seed without a draw: every other seed
+    // denotes the project it denoted before)
+    if seed.wrapping_mul(0xA24B_AED4_963E_E407) >> 58 == 0 {
+        let mut r2 = Rng::new(seed ^ 0x10_46_10_46);
+        return long_project(seed, &mut r2);
+    }
     // one synthetic project in three comes from the recursive grammar (grammar.rs)
     if rng.chance(1, 3) {
         return crate::grammar::grammar_project(rng.next());
